@@ -598,6 +598,32 @@ func removesOne(f *ssa.Function) bool {
 	for _, r := range ir.ReturnPoints(f) {
 		ms, ok := stripConv(r.Results[0]).(*ssa.MakeSlice)
 		if !ok {
+			// an empty list handed back when the list had exactly one element
+			if sl, isSl := stripConv(r.Results[0]).(*ssa.Slice); isSl {
+				if al, isAl := sl.X.(*ssa.Alloc); isAl {
+					if arr, isArr := al.Type().(*types.Pointer).Elem().(*types.Array); isArr && arr.Len() == 0 {
+						one := false
+						ir.Instrs(f, func(in ssa.Instruction) {
+							bo, isBo := in.(*ssa.BinOp)
+							if !isBo || bo.Op != token.EQL {
+								return
+							}
+							if k, isK := ir.ConstInt(bo.Y); isK && k == 1 {
+								if lc, isCall := bo.X.(*ssa.Call); isCall && len(lc.Call.Args) == 1 {
+									if _, isP := lc.Call.Args[0].(*ssa.Parameter); isP && r.Holds(bo, true) {
+										if bi, isB := lc.Call.Value.(*ssa.Builtin); isB && bi.Name() == "len" {
+											one = true
+										}
+									}
+								}
+							}
+						})
+						if one {
+							continue
+						}
+					}
+				}
+			}
 			return false
 		}
 		bo, ok := ms.Len.(*ssa.BinOp)
